@@ -1068,6 +1068,8 @@ class Inliner:
                 _hoist_common_tails(new)
                 _propagate_copies(new)
                 _sink_temp_copies(new)
+                if _slt(ast.Module(body=[new], type_ignores=[])):       # a tuple result that became literal only now
+                    new = _SplitTupleAssign().visit(new)
                 from .model import _sink_returns, _unflag_loops, _inline_branch_flags
                 _inline_branch_flags(ast.Module(body=[new], type_ignores=[]))
                 _sink_returns(ast.Module(body=[new], type_ignores=[]))
